@@ -14,31 +14,14 @@
 (* real (source files whose functions have exactly these lengths) and      *)
 (* compares every output of the code with exp.                             *)
 (***************************************************************************)
-EXTENDS Naturals, Sequences, FiniteSets, TLC
+EXTENDS LengthCategories, FiniteSets, TLC
 
 CONSTANTS Files,        \* file ids; FileLang[f] is its language
           Lengths,      \* lengths a single AddFunction may choose
           MaxFuncs
 
-Category(L) == IF L <= 15 THEN 1 ELSE IF L <= 30 THEN 2 ELSE IF L <= 60 THEN 3 ELSE 4
-CategoryName(L) == <<"easy", "verbose", "hard-to-maintain", "unmaintainable">>[Category(L)]
-Colour(L) == <<"green", "yellow", "dark_orange", "red">>[Category(L)]
-Symbol(L) == IF L > 60 THEN "cross" ELSE IF L > 30 THEN "warning" ELSE "check"
-IsFinding(L) == L > 30
-
-RECURSIVE SumSeq(_)
-SumSeq(s) == IF s = <<>> THEN 0 ELSE Head(s) + SumSeq(Tail(s))
 LensOf(fs, f) == LET sel == SelectSeq(fs, LAMBDA x : x[1] = f) IN [i \in 1..Len(sel) |-> sel[i][2]]
 AllLens(fs) == [i \in 1..Len(fs) |-> fs[i][2]]
-Profile(ls) == [c \in 1..4 |-> SumSeq(SelectSeq(ls, LAMBDA L : Category(L) = c))]
-Counts(ls)  == [c \in 1..4 |-> Len(SelectSeq(ls, LAMBDA L : Category(L) = c))]
-
-(* descending insertion sort (stable), as sorted(..., reverse=True) - ties keep source order *)
-RECURSIVE InsertDesc(_, _)
-InsertDesc(x, s) == IF s = <<>> THEN <<x>>
-                    ELSE IF x > Head(s) THEN <<x>> \o s ELSE <<Head(s)>> \o InsertDesc(x, Tail(s))
-RECURSIVE SortDesc(_)
-SortDesc(s) == IF s = <<>> THEN <<>> ELSE InsertDesc(s[Len(s)], SortDesc(SubSeq(s, 1, Len(s) - 1)))
 
 (* what `check` must do for a codebase fs *)
 CheckListing(fs, f) == SortDesc(SelectSeq(LensOf(fs, f), IsFinding))      \* longest first per file
